@@ -48,6 +48,10 @@ structure DSt where
   clearAll2 : Bool                 -- the same for the second recovery file
   suppress : Bool                  -- the first run was `run(raise_run_exceptions=False)`: no file, resumed in place
   cont : Option CCfg               -- restart with the `running` flags kept (`_serialize_result`), flat graphs
+  fparents : List (Nat × Nat)      -- ownership tree given directly (failure events outside a run of the root)
+  flabels : List (Nat × String)
+  fevents : List (Nat × List Nat)  -- (node that raised, nodes running at that moment)
+  fnorec : List Nat                -- nodes whose `recovery` is switched off
   kbd2 : List Nat
 
 def emptyFin (n : Nat) : FinDag :=
@@ -56,7 +60,8 @@ def emptyFin (n : Nat) : FinDag :=
 
 def DSt.init : DSt :=
   { n := 0, rc := RCfg.now, levels := [], cur := none, dirty := [], cut := none, keyAfterRun := true,
-    cp := [], ckptMore := [], fails2 := [], kbd2 := [], clearAll := true, clearAll2 := true, suppress := false, cont := none }
+    cp := [], ckptMore := [], fails2 := [], kbd2 := [], clearAll := true, clearAll2 := true, suppress := false, cont := none,
+    fparents := [], flabels := [], fevents := [], fnorec := [] }
 
 def setAt {α} (l : List α) (i : Nat) (v : α) (dflt : α) : List α :=
   let l' := if l.length ≤ i then l ++ List.replicate (i + 1 - l.length) dflt else l
@@ -534,6 +539,16 @@ def runCase (st0 : DSt) : List String :=
     else if refused then ["files " ++ " ".intercalate files, "load-failed"]
     else ["files " ++ " ".intercalate files] ++ perLevel.flatten ++ history
 
+/-- the recovery files after the recorded failure events, over the ownership tree given by `forest` lines -/
+def scanEvents (st : DSt) : List String :=
+  let f : Forest := { parent := fun i => (st.fparents.find? (·.1 == i)).map (·.2), recovery := fun i => !st.fnorec.contains i }
+  let nodes := (st.flabels.map (·.1))
+  let fuel := nodes.length + 1
+  let evs : List FailEv := st.fevents.map fun (k, rs) => { node := k, running := fun i => rs.contains i }
+  let label := fun i => match st.flabels.find? (·.1 == i) with | some (_, l) => l | none => s!"n{i}"
+  let path := fun n => "/".intercalate ((f.chain fuel n).reverse.map label)
+  ["files " ++ " ".intercalate ((f.recoveryFilesEv fuel nodes evs).map fun n => path n ++ "/recovery.pckl")]
+
 def parseTok (w : String) : Option Tok :=
   match w.splitOn ":" with
   | ["s", k] => k.toNat?.map Tok.sleep
@@ -649,6 +664,17 @@ def step' (s : DSt) (ws : List String) : DSt × List String :=
     | none => (s, ["bad-op"])
   | "fails2" :: is => match nats is with
     | some is => ({ s with fails2 := is }, [])
+    | none => (s, ["bad-op"])
+  | ["forest", i, pp, lab] => match i.toNat?, pp.toNat? with
+    | some i, some pp => ({ s with fparents := s.fparents ++ [(i, pp)], flabels := s.flabels ++ [(i, lab)] }, [])
+    | some i, none => if pp == "-" then ({ s with flabels := s.flabels ++ [(i, lab)] }, []) else (s, ["bad-op"])
+    | _, _ => (s, ["bad-op"])
+  | "fevent" :: k :: rs => match k.toNat?, nats rs with
+    | some k, some rs => ({ s with fevents := s.fevents ++ [(k, rs)] }, [])
+    | _, _ => (s, ["bad-op"])
+  | ["fscan"] => (s, scanEvents s)
+  | ["norecovery", i] => match i.toNat? with
+    | some i => ({ s with fnorec := s.fnorec ++ [i] }, [])
     | none => (s, ["bad-op"])
   | ["continue", a, b] => match parseBool a, parseBool b with
     | some a, some b => ({ s with cont := some { keepQueue := a, iterateCopy := b } }, [])
